@@ -4,8 +4,8 @@ import Glas.Gen.Parser
 # C02, obligations (d) and (e): witnesses that the *current* parser violates them
 
 The full-strength C02 also demands that the parser's own progress guard (`parser is stuck`, 1024
-look-aheads without a `bump`) never fires and that recursion depth is bounded.  On the current tree
-both are false.  These are kernel-evaluated witnesses on the generated program; they are replayed on
+look-aheads without a `bump` or a finished node) never fires and that recursion depth is bounded.  The first
+used to be false on deep nesting (repaired, see `stuck_repaired`); the second still is.  These are kernel-evaluated witnesses on the generated program; they are replayed on
 the implementation by the check (`KNOWN-FINDING C02/stuck/...`).  This module is built separately:
 when the defect is repaired in /repo these witnesses stop checking, which is reported as information
 and never as a violation.
@@ -17,9 +17,10 @@ open Glas.Dsl Glas.Gen
 def unclosed (n : Nat) : List Kind :=
   [K_FN_KW, K_IDENT, K_L_PAREN, K_R_PAREN, K_L_BRACE] ++ List.replicate n K_L_SQUARE
 
-/-- 185 unclosed `[` at end of input exhaust the look-ahead fuel while the parser unwinds -/
-theorem stuck_witness :
-    (match runMain glasProg 200000 (unclosed 185) with | .panic .stuck _ => true | _ => false) = true := by
+/-- 185 unclosed `[` at end of input used to exhaust the look-ahead fuel while the parser unwinds (recorded finding
+`C02/stuck/unclosed-openers-at-eof`, repaired in /repo e83622f: a finished node refills the budget); the run now ends -/
+theorem stuck_repaired :
+    (match runMain glasProg 200000 (unclosed 185) with | .ok _ => true | _ => false) = true := by
   decide +kernel
 
 /-- recursion depth grows linearly with the nesting (no nesting limit): 100 unclosed `[` reach call
